@@ -141,7 +141,7 @@ def main(ctx):
     if ctx.is_quick():
         ctx.shards("shard", [{"n": 12, "sub": s, "depth": 4} for s in range(16)], timeout=600)
     else:
-        ctx.shards("shard", [{"n": 120, "sub": s, "depth": 6} for s in range(16)], timeout=3400)
+        ctx.shards("shard", [{"n": 600, "sub": s, "depth": 6} for s in range(16)], timeout=3400)
     ctx.require("errors_propagated", 200)
     ctx.require("reexecutions_of_failed_calls_observed", 100)
     ctx.require("job_rows_checked", 300)
